@@ -11,8 +11,9 @@
                               string and every decimal exponent in [-324, 308]
      parse_toks             : the token parser returns the expected AST on the tokens of every shaped tree
      literal_tokens_canon   : wfb t -> literal_of_tokens (toks t) = LOk (OLit (canon t))     (any nesting depth)
-     nested_neg_refuted, bin_big_refuted, float_range_refuted : the three deviations of the code from the
-                              property text, by computation on the model. *)
+     nested_negation_canon  : -n inside an array / a tuple renders as at the top level, for every n
+     bin_big_refuted, float_range_refuted : the two remaining deviations of the code from the property text,
+                              by computation on the model. *)
 From Coq Require Import List NArith ZArith Bool Arith Lia ZifyN ZifyNat ZifyBool.
 From DC Require Import Base.Utf8 Base.Item Gen.TokenTable Expr.ExprTree Lexer.LexerStringsSpec
   Expr.LiteralModel Expr.LiteralSpec.
